@@ -110,7 +110,7 @@ Proof.
     destruct (entry_throw_resets cf); [|exact B].
     apply pres_on_throw; [exact B|]. eapply wl; eauto. intros c _. apply pres_set_proc_false.
   - destruct (s_kind (get_state mc s)); try (apply p_cb; auto).
-    apply pres_bind; [apply p_cb; auto | intros _; destruct (Nat.leb EV_FIRST_USER (e_ty ev)); [apply pres_push_up | apply pres_ret]].
+    apply pres_bind; [apply p_cb; auto | intros _; destruct (negb (Nat.eqb (e_ty ev) EV_NONE)); [apply pres_push_up | apply pres_ret]].
 Qed.
 
 Let Wpei : forall s co fuel ev src, child children s = Some co -> pres (wk mc) (lift_child s 0 (co_pei co fuel ev src)).
